@@ -620,9 +620,13 @@ class BLOBType(DataType):
         if not isinstance(value, str):
             raise WrongTypeError(f'{shortrepr(value)} must be a base64 encoded string')
         try:
-            return b64decode(value, validate=True)
+            result = b64decode(value, validate=True)
         except Exception:
             raise WrongTypeError(f'can not b64decode {shortrepr(value)}') from None
+        if b64encode(result).decode('ascii') != value:
+            # b64decode tolerates excess padding and non-zero unused bits even with validate=True
+            raise WrongTypeError(f'{shortrepr(value)} is not the base64 encoding of a blob')
+        return result
 
     def format_value(self, value, unit=True):
         return repr(value)
